@@ -6,7 +6,8 @@ decoding call): its elements are whatever the input says, negative values includ
 Accepted guards:
   - the use is inside the true branch of `X > 0` / `X >= 0`, or is dominated by `if (X < 0) <exit>`;
   - an earlier loop of the function tests the same array element-wise (`A[j] < 0`, alone or in an `||` chain)
-    and leaves the function when the test holds.
+    and leaves the function when the test holds - or a static helper that is handed the array does so and its
+    call dominates the use.
 Without one, X = -1 moves the pointer in front of the buffer (or becomes a huge size): violation."""
 from ..facts import src
 from ..util import is_assign
@@ -128,6 +129,27 @@ def check(ctx, fns, rule="R33.signed-offset", key_prefix="signed-offset"):
                         if pol == "neg" and txt.startswith(aname + "[") and any(a.k in ("ForStmt", "WhileStmt") for a in g.ancestors()) \
                                 and any(r.k in ("ReturnStmt", "GotoStmt") for r in kids[1].walk()) and g.l < use.l:
                             ok = ok or "the loop at line %d rejects negative elements of %s" % (g.l, aname)
+            if ok is None:
+                # (c) the element-wise validation lives in a static helper that receives the array
+                for c in fn.calls():
+                    hs = [h for h in P.by_name.get(c.callee or "", []) if h.file == fn.file and h.static and h.body is not None]
+                    if not hs or not fn.cfg.node_dominates(c, use):
+                        continue
+                    h = hs[0]
+                    for ai, a in enumerate(c.args()):
+                        x = a.strip_casts() if a is not None else None
+                        if x is None or x.k != "DeclRefExpr" or x.get("d") != adecl or ai >= len(h.params):
+                            continue
+                        pname = h.params[ai]["n"]
+                        for g in h.body.walk():
+                            if g.k != "IfStmt" or not any(z.k in ("ForStmt", "WhileStmt") for z in g.ancestors()):
+                                continue
+                            kids = [k for k in g.c if k is not None]
+                            if kids[0].strip_casts().k == "BinaryOperator" and kids[0].strip_casts().op == "&&":
+                                continue
+                            errs = [r for r in kids[1].walk() if r.k == "ReturnStmt" and r.c and r.c[0] is not None and r.c[0].cv is not None]
+                            if errs and any(pol == "neg" and txt.startswith(pname + "[") for txt, pol in _sign_tests(kids[0])):
+                                ok = "%s() rejects negative elements of %s before this use" % (h.name, aname)
             if ok:
                 ctx.ok(rule, key, P.where(use), what, ok)
             else:
